@@ -106,6 +106,9 @@ func runProp(p *propDef, tier, repo, verif string, list bool, shared **Ctx, only
 	}
 	r.loadInfo = c.loadInfo
 	p.run(c, r)
+	if tier == "thorough" && only == nil {
+		thoroughExtras(c, r, p, verif)
+	}
 	return r.finish(t0, list, only)
 }
 
